@@ -41,12 +41,183 @@ enum Job {
     /// real GSUB: big single-subst lookups pairwise sharing a coverage, all promoted to extensions:
     /// several 32-bit spaces overflow in the same isolation round
     SharedCovGsub(u16),
+    /// overflowing GSUB/GPOS whose lookups fall into groups of EQUAL promotion score (ties), the
+    /// "layers full" cut-off of select_promotions_hb inside a tied group
+    TiedPromo(PromoSpec),
+    /// variable GPOS through the public builders: every value / anchor carries deltas over its own
+    /// regions (heterogeneous, in its own order), all builders share ONE VariationStoreBuilder;
+    /// output = ItemVariationStore bytes + remapped GPOS bytes   (kind, variant)
+    VarBuilder(&'static str, u32),
+}
+
+/// one lookup = list of subtables (first glyph, number of glyphs, glyph stride)
+#[derive(Clone, Debug, PartialEq)]
+struct PromoSpec {
+    gpos: bool,
+    salt: u16,
+    pattern: u8,
+    lookups: Vec<Vec<(u16, u16, u16)>>,
+}
+
+impl PromoSpec {
+    fn name(&self) -> String {
+        format!("tiedpromo:{}:p{}:{}lk:{:08x}", if self.gpos { "gpos" } else { "gsub" }, self.pattern, self.lookups.len(), fnv(format!("{self:?}").as_bytes()) as u32)
+    }
+    fn glyphs(&self, k: usize, j: usize) -> impl Iterator<Item = write_fonts::types::GlyphId16> {
+        let (first, n, stride) = self.lookups[k][j];
+        (0..n).map(move |i| write_fonts::types::GlyphId16::new(first + i * stride))
+    }
+    fn payload(&self, k: usize, j: usize, i: u16) -> u16 {
+        // distinct per (lookup, subtable): nothing is deduplicated between lookups
+        ((k as u32 * 977 + j as u32 * 131 + self.salt as u32 + i as u32 * 3) % 64_000) as u16 + 1
+    }
+    fn gsub_subtable(&self, k: usize, j: usize) -> write_fonts::tables::gsub::SingleSubst {
+        let n = self.lookups[k][j].1;
+        let coverage = self.glyphs(k, j).collect();
+        let subs = (0..n).map(|i| write_fonts::types::GlyphId16::new(self.payload(k, j, i))).collect();
+        write_fonts::tables::gsub::SingleSubst::format_2(coverage, subs)
+    }
+    fn gpos_subtable(&self, k: usize, j: usize) -> write_fonts::tables::gpos::SinglePos {
+        use write_fonts::tables::gpos::{SinglePos, ValueRecord};
+        let n = self.lookups[k][j].1;
+        let coverage = self.glyphs(k, j).collect();
+        let vals = (0..n).map(|i| ValueRecord::new().with_x_advance((self.payload(k, j, i) % 30_000) as i16)).collect();
+        SinglePos::format_2(coverage, vals)
+    }
+    /// the whole table
+    fn compile(&self) -> Vec<u8> {
+        use write_fonts::tables::layout::{Lookup, LookupFlag, LookupList};
+        if self.gpos {
+            use write_fonts::tables::gpos::{Gpos, PositionLookup};
+            let lookups = (0..self.lookups.len())
+                .map(|k| PositionLookup::Single(Lookup::new(LookupFlag::empty(), (0..self.lookups[k].len()).map(|j| self.gpos_subtable(k, j)).collect())))
+                .collect();
+            dump_table(&Gpos::new(Default::default(), Default::default(), LookupList::new(lookups))).unwrap_or_else(|e| err_bytes("tiedpromo", e))
+        } else {
+            use write_fonts::tables::gsub::{Gsub, SubstitutionLookup};
+            let lookups = (0..self.lookups.len())
+                .map(|k| SubstitutionLookup::Single(Lookup::new(LookupFlag::empty(), (0..self.lookups[k].len()).map(|j| self.gsub_subtable(k, j)).collect())))
+                .collect();
+            dump_table(&Gsub::new(Default::default(), Default::default(), LookupList::new(lookups))).unwrap_or_else(|e| err_bytes("tiedpromo", e))
+        }
+    }
+    /// per lookup (subtable_count, subgraph_size, lookup_size, children_size) as select_promotions_hb sees them:
+    /// lookup object = 6 + 2*count bytes; a subtable object = 6 (GSUB single format 2) / 8 (GPOS single format 2,
+    /// one value field) + 2n bytes; subtable + its coverage = the compiled size of that subtable alone
+    /// (coverages of one lookup are distinct objects: the generator gives them distinct glyph sets)
+    fn sizes(&self) -> Vec<(u64, u64, u64, u64)> {
+        (0..self.lookups.len())
+            .map(|k| {
+                let count = self.lookups[k].len() as u64;
+                let lookup_size = 6 + 2 * count;
+                let mut children = 0u64;
+                let mut below = 0u64;
+                for j in 0..self.lookups[k].len() {
+                    let n = self.lookups[k][j].1 as u64;
+                    children += if self.gpos { 8 + 2 * n } else { 6 + 2 * n };
+                    below += if self.gpos { dump_table(&self.gpos_subtable(k, j)).unwrap().len() } else { dump_table(&self.gsub_subtable(k, j)).unwrap().len() } as u64;
+                }
+                (count, lookup_size + below, lookup_size, children)
+            })
+            .collect()
+    }
+    /// which lookups of the compiled table are extension lookups
+    fn promoted(&self, bytes: &[u8]) -> Option<Vec<bool>> {
+        use write_fonts::read::FontRead;
+        if self.gpos {
+            use write_fonts::read::tables::gpos::{Gpos, PositionLookup};
+            let t = Gpos::read(bytes.into()).ok()?;
+            let l = t.lookup_list().ok()?;
+            l.lookups().iter().map(|x| x.ok().map(|x| matches!(x, PositionLookup::Extension(_)))).collect()
+        } else {
+            use write_fonts::read::tables::gsub::{Gsub, SubstitutionLookup};
+            let t = Gsub::read(bytes.into()).ok()?;
+            let l = t.lookup_list().ok()?;
+            l.lookups().iter().map(|x| x.ok().map(|x| matches!(x, SubstitutionLookup::Extension(_)))).collect()
+        }
+    }
+}
+
+/// overflowing layout table with tied promotion scores. Patterns: 0 one group of identical-size lookups;
+/// 1 a few small distinct lookups + a tied group; 2 two tied groups (two-subtable lookups / one-subtable lookups);
+/// 3 tied group with range coverages (different subtable/coverage ratio) + a tied group with array coverages;
+/// 4 all sizes distinct (control: no ties)
+fn gen_promo(rng: &mut Rng) -> PromoSpec {
+    let gpos = rng.chance(1, 3);
+    let pattern = rng.below(5) as u8;
+    let n = 1200 + rng.below(2400) as u16; // glyphs per subtable: 5..15 KB with its coverage
+    let mut lookups: Vec<Vec<(u16, u16, u16)>> = vec![];
+    let group = |lookups: &mut Vec<Vec<(u16, u16, u16)>>, members: usize, subtables: usize, n: u16, stride: u16| {
+        for _ in 0..members {
+            let k = lookups.len() as u16;
+            lookups.push((0..subtables as u16).map(|j| (1 + 3 * k + 7 * j, n, stride)).collect());
+        }
+    };
+    match pattern {
+        0 => group(&mut lookups, 6 + rng.below(7) as usize, 1, n, 2),
+        1 => {
+            for _ in 0..1 + rng.below(3) {
+                let small = 100 + rng.below(900) as u16 + lookups.len() as u16;
+                group(&mut lookups, 1, 1, small, 2);
+            }
+            group(&mut lookups, 5 + rng.below(6) as usize, 1, n, 2);
+        }
+        2 => {
+            group(&mut lookups, 2 + rng.below(4) as usize, 2, n / 2, 2);
+            group(&mut lookups, 3 + rng.below(5) as usize, 1, n, 2);
+        }
+        3 => {
+            group(&mut lookups, 2 + rng.below(4) as usize, 1, 2 * n, 1);
+            group(&mut lookups, 3 + rng.below(5) as usize, 1, n, 3);
+        }
+        _ => {
+            for i in 0..7 + rng.below(5) as u16 {
+                group(&mut lookups, 1, 1, n + 5 * i, 2);
+            }
+        }
+    }
+    // make sure the table overflows (a layout table packs without promotion as long as the subtable objects
+    // alone stay below 64 KiB: lookups, subtables and coverages are laid out layer by layer): grow the last group
+    let approx = |l: &Vec<Vec<(u16, u16, u16)>>| -> usize { l.iter().flatten().map(|(_, n, _)| 2 * *n as usize + 8).sum() };
+    while approx(&lookups) < 70_000 + 4_000 * (pattern as usize % 3) {
+        let last = lookups.last().unwrap().clone();
+        let k = lookups.len() as u16;
+        lookups.push(last.iter().enumerate().map(|(j, (_, n, s))| (1 + 3 * k + 7 * j as u16, *n + if pattern == 4 { 5 * k } else { 0 }, *s)).collect());
+    }
+    // lookup-list order (= id order) interleaves the groups
+    rng.shuffle(&mut lookups);
+    PromoSpec { gpos, salt: rng.below(5000) as u16, pattern, lookups }
+}
+
+/// Coq term `CPromo (PCase ...)` + (cut inside a tied group?) for a compiled promo table
+fn promo_case(spec: &PromoSpec, bytes: &[u8]) -> Option<(String, bool)> {
+    let promoted = spec.promoted(bytes)?;
+    let sizes = spec.sizes();
+    if promoted.len() != sizes.len() {
+        return None;
+    }
+    let list_size = 2 + 2 * sizes.len();
+    let mut tie_cut = false;
+    for a in 0..sizes.len() {
+        for b in 0..sizes.len() {
+            if (sizes[a].0, sizes[a].1) == (sizes[b].0, sizes[b].1) && promoted[a] != promoted[b] {
+                tie_cut = true;
+            }
+        }
+    }
+    let lks = clist(sizes.iter().enumerate(), |(i, (count, subgraph, size, children))| {
+        // graph.rs LookupSize::sort_key
+        let key = ((*count as usize as f64 / *subgraph as usize as f64) * 1e9) as u64;
+        format!("mkLk {} {} {} {} {} {}", 10 + 3 * i, key, count, subgraph, size, children)
+    });
+    let obs = czlist(promoted.iter().enumerate().filter(|(_, p)| **p).map(|(i, _)| (10 + 3 * i) as i128));
+    Some((format!("CPromo (PCase {} {} {})", list_size, lks, obs), tie_cut))
 }
 
 /// jobs whose code paths iterate freshly created hash containers: repeated >= 32 times in one process
 fn hash_sensitive(j: &Job) -> bool {
     match j {
-        Job::Builder(..) | Job::SharedCovGsub(_) | Job::Ivs(_) | Job::Gvar(_) | Job::BigGpos(..) | Job::SplitGpos(..) => true,
+        Job::Builder(..) | Job::VarBuilder(..) | Job::TiedPromo(_) | Job::SharedCovGsub(_) | Job::Ivs(_) | Job::Gvar(_) | Job::BigGpos(..) | Job::SplitGpos(..) => true,
         Job::Dag(d) => d.has_width(4) && d.nodes.len() <= 12 && d.nodes[0].iter().filter(|i| matches!(i, c05gen::Item::Link(4, _))).count() >= 4,
         _ => false,
     }
@@ -219,6 +390,183 @@ fn builder_job(kind: &str, v: u32) -> Vec<u8> {
         }
         _ => unreachable!(),
     }
+}
+
+const VAR_KINDS: [&str; 9] = ["singlepos", "pairglyphs", "pairclasses", "pairmixed", "cursive", "marktobase", "marktomark", "marktolig", "gpos_all"];
+
+/// variable GPOS through the public builders. Every value / anchor gets deltas over 1..3 regions drawn
+/// (by a per-job generator, i.e. a function of the job alone) from 10 shared + 6 builder-private regions, in its
+/// own order, so the first-seen region numbering of the shared VariationStoreBuilder depends on the order in which the
+/// builders visit their contents.
+fn var_builder_job(kind: &str, v: u32) -> Vec<u8> {
+    use write_fonts::read::collections::IntSet;
+    use write_fonts::tables::gpos::builders::{
+        AnchorBuilder, CursivePosBuilder, MarkToBaseBuilder, MarkToLigBuilder, MarkToMarkBuilder, PairPosBuilder, SinglePosBuilder,
+        ValueRecordBuilder,
+    };
+    use write_fonts::tables::gpos::{Gpos, PositionLookup};
+    use write_fonts::tables::layout::builders::Builder;
+    use write_fonts::tables::layout::{FeatureList, Lookup, LookupFlag, LookupList, ScriptList};
+    use write_fonts::tables::variations::ivs_builder::{RemapVariationIndices, VariationStoreBuilder};
+    use write_fonts::tables::variations::{RegionAxisCoordinates, VariationRegion};
+    use write_fonts::types::{F2Dot14, GlyphId16};
+    let g = GlyphId16::new;
+    let mut rng = Rng::new(0x7661_7262 ^ ((v as u64) << 20) ^ fnv(kind.as_bytes()));
+    // 10 regions shared by all builders + 6 private regions per builder site (so that every builder, whatever ran
+    // before it on the shared store, is the first to mention some regions)
+    const SHARED: usize = 10;
+    const PRIVATE: usize = 6;
+    let pool: Vec<VariationRegion> = (0..SHARED + 7 * PRIVATE)
+        .map(|i| {
+            let mk = |s: f32, p: f32, e: f32| RegionAxisCoordinates { start_coord: F2Dot14::from_f32(s), peak_coord: F2Dot14::from_f32(p), end_coord: F2Dot14::from_f32(e) };
+            VariationRegion::new(vec![mk(0.0, 0.125 * (1 + i % 8) as f32, 1.0), if i < 8 { mk(0.0, 0.0, 0.0) } else { mk(0.0, 0.125 * (i / 8) as f32, 1.0) }])
+        })
+        .collect();
+    // heterogeneity: variant 0 = each value varies in ONE of the site's private regions; others = 1..3 regions of
+    // shared + private in random order
+    fn deltas(rng: &mut Rng, pool: &[VariationRegion], site: usize, v: u32) -> Vec<(VariationRegion, i16)> {
+        let k = if v == 0 { 1 } else { 1 + rng.below(3) as usize };
+        let mut idx: Vec<usize> = (SHARED + site * PRIVATE..SHARED + (site + 1) * PRIVATE).collect();
+        if v != 0 {
+            idx.extend(0..SHARED);
+        }
+        rng.shuffle(&mut idx);
+        idx.into_iter().take(k).map(|i| (pool[i].clone(), 1 + rng.below(90) as i16 - 45)).map(|(r, d)| (r, if d == 0 { 7 } else { d })).collect()
+    }
+    let gset = |it: &mut dyn Iterator<Item = u16>| -> IntSet<GlyphId16> {
+        let mut s = IntSet::empty();
+        for x in it {
+            s.insert(g(x));
+        }
+        s
+    };
+    let mut vs = VariationStoreBuilder::new(2);
+    let mut lookups: Vec<PositionLookup> = vec![];
+    let all = kind == "gpos_all";
+    if all || kind == "singlepos" {
+        let mut b = SinglePosBuilder::default();
+        for k in 0..18u16 {
+            let mut r = ValueRecordBuilder::new().with_x_advance(10 + k as i16);
+            if k % 3 != 2 {
+                r = r.with_x_advance_device(deltas(&mut rng, &pool, 0, v));
+            }
+            if k % 4 == 1 {
+                r = r.with_y_placement(3).with_y_placement_device(deltas(&mut rng, &pool, 0, v));
+            }
+            b.insert(g(900 - 13 * k), r);
+        }
+        lookups.push(PositionLookup::Single(Lookup::new(LookupFlag::empty(), b.build(&mut vs))));
+    }
+    if all || kind == "pairglyphs" || kind == "pairclasses" || kind == "pairmixed" {
+        let mut b = PairPosBuilder::default();
+        if kind != "pairclasses" {
+            for k in 0..8u16 {
+                for j in 0..3u16 {
+                    let r1 = ValueRecordBuilder::new().with_x_advance(-(k as i16) - 1).with_x_advance_device(deltas(&mut rng, &pool, 1, v));
+                    let r2 = if (k + j) % 3 == 0 { ValueRecordBuilder::new().with_x_placement(2).with_x_placement_device(deltas(&mut rng, &pool, 1, v)) } else { ValueRecordBuilder::new() };
+                    b.insert_pair(g(700 - 31 * k), r1, g(40 + 5 * j + k), r2);
+                }
+            }
+        }
+        if kind != "pairglyphs" {
+            // several first classes of different sizes (class ids are not in glyph order), several second classes;
+            // a second batch of classes overlapping the first forces a second class-pair subtable
+            let n1 = 5 + (v as u16 % 3);
+            for k in 0..n1 {
+                let c1 = gset(&mut (0..=(k * 7) % 5).map(|i| 1000 + k * 10 + i));
+                for j in 0..3u16 {
+                    if (k + j) % 4 == 3 {
+                        continue;
+                    }
+                    let c2 = gset(&mut (0..=(j % 2)).map(|i| 2000 + j * 10 + i));
+                    let r1 = ValueRecordBuilder::new().with_x_advance(-10 - k as i16).with_x_advance_device(deltas(&mut rng, &pool, 2, v));
+                    let r2 = if j == 1 { ValueRecordBuilder::new().with_x_advance(1).with_x_advance_device(deltas(&mut rng, &pool, 2, v)) } else { ValueRecordBuilder::new() };
+                    b.insert_classes(c1.clone(), r1, c2, r2);
+                }
+            }
+            for k in 0..4u16 {
+                let c1 = gset(&mut [1000 + k * 10, 1100 + k].into_iter());
+                let c2 = gset(&mut [2000u16, 2050 + k].into_iter());
+                b.insert_classes(c1, ValueRecordBuilder::new().with_x_advance(5).with_x_advance_device(deltas(&mut rng, &pool, 2, v)), c2, ValueRecordBuilder::new());
+            }
+        }
+        lookups.push(PositionLookup::Pair(Lookup::new(LookupFlag::empty(), b.build(&mut vs))));
+    }
+    let anchor = |rng: &mut Rng, site: usize, x: i16, y: i16| -> AnchorBuilder {
+        let a = AnchorBuilder::new(x, y);
+        match rng.below(4) {
+            0 => a,
+            1 => a.with_x_device(deltas(rng, &pool, site, v)),
+            2 => a.with_y_device(deltas(rng, &pool, site, v)),
+            _ => a.with_x_device(deltas(rng, &pool, site, v)).with_y_device(deltas(rng, &pool, site, v)),
+        }
+    };
+    if all || kind == "cursive" {
+        let mut b = CursivePosBuilder::default();
+        for k in 0..14u16 {
+            let e = if k % 3 == 0 { None } else { Some(anchor(&mut rng, 3, k as i16, 1)) };
+            let x = if k % 4 == 0 { None } else { Some(anchor(&mut rng, 3, 2, k as i16)) };
+            b.insert(g(3000 - k * 17), e, x);
+        }
+        lookups.push(PositionLookup::Cursive(Lookup::new(LookupFlag::empty(), b.build(&mut vs))));
+    }
+    if all || kind == "marktobase" {
+        let mut b = MarkToBaseBuilder::default();
+        let classes = ["top", "bottom", "ogonek", "ring", "horn", "cedilla"];
+        for (ci, c) in classes.iter().enumerate() {
+            for j in 0..3u16 {
+                let _ = b.insert_mark(g(4400 - ci as u16 * 10 - j), c, anchor(&mut rng, 4, j as i16, ci as i16 * 10));
+            }
+        }
+        for bg in 0..8u16 {
+            for (ci, c) in classes.iter().enumerate().rev() {
+                if (bg as usize + ci) % 3 != 0 {
+                    b.insert_base(g(4030 + bg * 2), c, anchor(&mut rng, 4, 100 + bg as i16, ci as i16));
+                }
+            }
+        }
+        lookups.push(PositionLookup::MarkToBase(Lookup::new(LookupFlag::empty(), b.build(&mut vs))));
+    }
+    if all || kind == "marktomark" {
+        let mut b = MarkToMarkBuilder::default();
+        let classes = ["top", "bottom", "side", "above2", "below2"];
+        for (ci, c) in classes.iter().enumerate() {
+            for j in 0..3u16 {
+                let _ = b.insert_mark1(g(5400 - ci as u16 * 10 - j), c, anchor(&mut rng, 5, j as i16, ci as i16));
+            }
+        }
+        for m2 in 0..7u16 {
+            for (ci, c) in classes.iter().enumerate().rev() {
+                if (m2 as usize + ci) % 2 == 0 {
+                    b.insert_mark2(g(5600 + m2), c, anchor(&mut rng, 5, m2 as i16, ci as i16 + 5));
+                }
+            }
+        }
+        lookups.push(PositionLookup::MarkToMark(Lookup::new(LookupFlag::empty(), b.build(&mut vs))));
+    }
+    if all || kind == "marktolig" {
+        let mut b = MarkToLigBuilder::default();
+        let classes = ["top", "bottom", "mid", "hook"];
+        for (ci, c) in classes.iter().enumerate() {
+            for j in 0..3u16 {
+                let _ = b.insert_mark(g(6400 - ci as u16 * 10 - j), c, anchor(&mut rng, 6, j as i16, ci as i16));
+            }
+        }
+        for lg in 0..6u16 {
+            for (ci, c) in classes.iter().enumerate().rev() {
+                let comps = (0..3).map(|k| if (k + ci + lg as usize) % 3 == 0 { None } else { Some(anchor(&mut rng, 6, k as i16 * 10, lg as i16)) }).collect();
+                b.insert_ligature(g(6800 + lg), c, comps);
+            }
+        }
+        lookups.push(PositionLookup::MarkToLig(Lookup::new(LookupFlag::empty(), b.build(&mut vs))));
+    }
+    let mut gpos = Gpos::new(ScriptList::default(), FeatureList::default(), LookupList::new(lookups));
+    let (ivs, remap) = vs.build();
+    gpos.remap_variation_indices(&remap);
+    let mut out = dump_table(&ivs).unwrap_or_else(|e| err_bytes("varbuilder-ivs", e));
+    out.extend_from_slice(b"|GPOS|");
+    out.extend(dump_table(&gpos).unwrap_or_else(|e| err_bytes("varbuilder", e)));
+    out
 }
 
 fn shared_cov_gsub(pairs: u16) -> Vec<u8> {
@@ -405,6 +753,8 @@ fn run_job(job: &Job) -> Result<Vec<u8>, String> {
         }
         Job::Builder(kind, v) => builder_job(kind, *v),
         Job::SharedCovGsub(pairs) => shared_cov_gsub(*pairs),
+        Job::TiedPromo(spec) => spec.compile(),
+        Job::VarBuilder(kind, v) => var_builder_job(kind, *v),
         Job::Subset(fi, pick) => {
             use klippa::{subset_font, Plan, SubsetFlags};
             use write_fonts::read::collections::IntSet;
@@ -448,6 +798,8 @@ fn job_name(j: &Job) -> String {
         Job::Subset(f, p) => format!("subset:{}:{}", fonts()[*f].0, p),
         Job::Builder(k, v) => format!("builder:{k}:{v}"),
         Job::SharedCovGsub(p) => format!("sharedcovgsub:{p}"),
+        Job::TiedPromo(spec) => spec.name(),
+        Job::VarBuilder(k, v) => format!("varbuilder:{k}:{v}"),
     }
 }
 
@@ -492,6 +844,24 @@ fn make_jobs(seed: u64, thorough: bool) -> Vec<Job> {
     for k in ["singlepos_runs", "singlepos_mixed", "pairpos", "marktobase", "marktomark", "marktolig", "cursive", "classdef", "coverage"] {
         for v in 0..3 {
             jobs.push(Job::Builder(k, v));
+        }
+    }
+    for k in VAR_KINDS {
+        for v in 0..(if thorough { 4 } else { 2 }) {
+            jobs.push(Job::VarBuilder(k, v));
+        }
+    }
+    // promotion under ties: own generator stream so that the rest of the job list is unchanged
+    let mut prng = Rng::new(seed ^ 0x7075_726f_6d6f);
+    let mut seen_patterns = [0u32; 5];
+    let want = if thorough { 4 } else { 2 };
+    let mut guard = 0;
+    while seen_patterns.iter().any(|c| *c < want) && guard < 400 {
+        guard += 1;
+        let spec = gen_promo(&mut prng);
+        if seen_patterns[spec.pattern as usize] < want {
+            seen_patterns[spec.pattern as usize] += 1;
+            jobs.push(Job::TiedPromo(spec));
         }
     }
     jobs.push(Job::SharedCovGsub(2)); // two two-root spaces overflowing in the same round
@@ -553,9 +923,9 @@ fn main() {
     let mut st = Stats::new();
     let mut cw = CaseWriter::new(
         &dir,
-        "From Coq Require Import ZArith List. Import ListNotations. Open Scope Z_scope.\nFrom FV Require Import Lib.Cases C05.Model.",
-        "case_ty",
-        "check_case_ids",
+        "From Coq Require Import ZArith List. Import ListNotations. Open Scope Z_scope.\nFrom FV Require Import Lib.Cases C05.Model C07.PromoteModel.",
+        "c07_case",
+        "check_case7",
         if thorough { 120 } else { 60 },
     );
 
@@ -741,7 +1111,46 @@ fn main() {
         if seen.insert(d.canon()) {
             base_guess = base_guess.wrapping_mul(31).wrapping_add(k as u64) % 1_000_000;
             if let Some(t) = case_term(&d, base_guess, 1 + (k as u64 % 3), &out) {
-                cw.push(t);
+                cw.push(format!("CDag {t}"));
+            }
+        }
+    }
+
+    // promotion choice under ties: generated overflowing GSUB/GPOS tables (own stream); compiled twice after id
+    // burns (implementation-only oracle: identical bytes), the set of extension lookups read back from the real
+    // bytes must be the one the model of get_promotable_subtables + select_promotions_hb predicts
+    let mut prng = Rng::new(seed ^ 0x70726f6d6f32);
+    for k in 0..(if thorough { 160 } else { 40 }) {
+        let spec = gen_promo(&mut prng);
+        burn(&mut rng, (k % 4) as usize);
+        let a = catch(std::panic::AssertUnwindSafe(|| spec.compile()));
+        burn(&mut rng, 1 + (k % 3) as usize);
+        let b = catch(std::panic::AssertUnwindSafe(|| spec.compile()));
+        st.evaluations += 2;
+        st.count(&format!("promo.pattern_{}", spec.pattern));
+        st.count(if spec.gpos { "promo.gpos" } else { "promo.gsub" });
+        if a != b {
+            st.oracle_failure(json!({"key": format!("nondeterministic:{}", spec.name()), "job": format!("{spec:?}"), "what": "two consecutive compilations differ",
+                "promoted": [a.as_ref().ok().and_then(|x| spec.promoted(x)), b.as_ref().ok().and_then(|x| spec.promoted(x))]}));
+        }
+        match &a {
+            Ok(bytes) if !bytes.starts_with(b"ERR:") => match promo_case(&spec, bytes) {
+                Some((t, tie_cut)) => {
+                    st.count("promo.model_cases");
+                    if tie_cut {
+                        st.count("promo.cutoff_inside_tied_group");
+                    }
+                    let np = spec.promoted(bytes).map(|p| p.iter().filter(|x| **x).count()).unwrap_or(0);
+                    st.count(if np == 0 { "promo.none_promoted" } else if np == spec.lookups.len() { "promo.all_promoted" } else { "promo.some_promoted" });
+                    st.nontrivial(&spec.name());
+                    cw.push(t);
+                }
+                None => st.count("promo.unreadable"),
+            },
+            Ok(_) => st.count("promo.packing_failed"),
+            Err(p) => {
+                st.count("promo.panic");
+                st.oracle_failure(json!({"key": format!("panic:{}", spec.name()), "job": format!("{spec:?}"), "what": "compilation panics", "panic": p}));
             }
         }
     }
@@ -749,6 +1158,6 @@ fn main() {
     let shards = cw.finish();
     st.v.insert("shards".into(), shards.into());
     st.v.insert("model_cases".into(), cw.len().into());
-    st.write(&dir, "jobs = generated object DAGs (incl. space assignment/duplication path), real GPOS/GSUB/GDEF/gvar/name/cmap/HVAR/fvar tables of 5 test fonts, synthetic GPOS forcing splitting/promotion, VariationStoreBuilder, FontBuilder::build, klippa::subset_font; each compiled as reference, after random unrelated compilations, on 1/2/3/4/8/16 threads with randomised start, and in fresh child processes; non-trivial = distinct job");
+    st.write(&dir, "jobs = generated object DAGs (incl. space assignment/duplication path), real GPOS/GSUB/GDEF/gvar/name/cmap/HVAR/fvar tables of 5 test fonts, synthetic GPOS forcing splitting/promotion, overflowing GSUB/GPOS with equal-score lookups (promotion cut-off inside a tie; promoted set also predicted by the Coq model of select_promotions_hb), variable GPOS through the public builders sharing one VariationStoreBuilder (heterogeneous regions per value), VariationStoreBuilder, FontBuilder::build, klippa::subset_font; each compiled as reference, after random unrelated compilations, on 1/2/3/4/8/16 threads with randomised start, and in fresh child processes; non-trivial = distinct job");
     println!("jobs={} cases={} shards={} oracle_failures={} disagreements={}", n, cw.len(), shards, st.oracle_failures.len(), disagreements.len());
 }
